@@ -167,3 +167,24 @@ Proof.
   exact (conj (g_clicolor_eq e) (conj (g_clicolor_force_eq e) (conj (g_no_color_eq e) (conj (g_term_supports_color_eq e)
         (conj (g_term_supports_ansi_color_eq e) (conj (g_truecolor_eq e) (g_is_ci_eq e))))))).
 Qed.
+
+(* ---- impl Default for ColorChoice / AtomicChoice ---- *)
+Lemma g_choice_default_eq : g_choice_default = ch_choice_default.
+Proof. reflexivity. Qed.
+
+Lemma g_atomic_default_eq : g_atomic_default = Some ch_atomic_default.
+Proof. unfold g_atomic_default. rewrite g_atomic_new_eq. reflexivity. Qed.
+
+(* the two defaults agree: the default atomic is the static's initial value, and reading it back gives the
+   default choice, the one a never-written global answers *)
+Theorem translated_default_atomic_holds_default_choice :
+  g_atomic_default = g_user_initial /\
+  (a <- g_atomic_default ;; g_atomic_get a) = Some g_choice_default /\
+  (u <- g_user_initial ;; g_global u) = Some g_choice_default.
+Proof.
+  refine (conj _ (conj _ _)).
+  - rewrite g_atomic_default_eq, g_user_initial_eq. reflexivity.
+  - rewrite g_atomic_default_eq. cbv beta iota. rewrite g_atomic_get_eq.
+    unfold ch_atomic_default, ch_atomic_new, ch_atomic_get. rewrite atomic_roundtrip. reflexivity.
+  - rewrite translated_initial_global. reflexivity.
+Qed.
